@@ -26,7 +26,7 @@ GRID = NUMS + STRS + OTHER
 BINOPS = ["+", "-", "*", "/", "%", "**", "&", "|", "^", "<<", ">>", ">>>", "<", "<=", ">", ">=",
           "==", "!=", "===", "!==", "&&", "||", ",", "in", "instanceof"]
 UNOPS = ["-", "+", "!", "~", "typeof ", "void "]
-COMPOUND = ["+=", "-=", "*=", "/=", "%=", "&=", "|=", "^=", "<<=", ">>=", ">>>="]
+COMPOUND = ["+=", "-=", "*=", "/=", "%=", "&=", "|=", "^=", "<<=", ">>=", ">>>=", "**="]
 
 
 def spell(v):
@@ -147,6 +147,20 @@ def ulps(a, b):
     return abs(key(a[1]) - key(b[1]))
 
 
+def close(a, b):
+    """Typed encodings equal up to 1 ulp in doubles (used only where ** is involved); arrays elementwise."""
+    if a == b:
+        return True
+    if not (isinstance(a, list) and isinstance(b, list) and a and b and a[0] == b[0]):
+        return False
+    if a[0] == "d":
+        u = ulps(a, b)
+        return u is not None and u <= 1
+    if a[0] == "a" and len(a) == 3 and len(b) == 3 and len(a[2]) == len(b[2]):
+        return all(close(x, y) for x, y in zip(a[2], b[2]))
+    return False
+
+
 def agree(e, n, src=""):
     """engine outcome e vs reference n."""
     if "ret" in e and "ret" in n:
@@ -154,9 +168,8 @@ def agree(e, n, src=""):
             return True
         # ** is "implementation-approximated" in ECMAScript: V8's own pow differs from the
         # correctly rounded value by an ulp on some inputs; a 1-ulp difference is not judged.
-        if "**" in src and e["ret"][0] == "d" and n["ret"][0] == "d":
-            u = ulps(e["ret"], n["ret"])
-            return u is not None and u <= 1
+        if "**" in src:
+            return close(e["ret"], n["ret"])
         return False
     if "err" in e and "err" in n:
         # reference threw: the engine must fail with a JSError (class name is C07's business)
